@@ -13,6 +13,8 @@ ENGINES = [
      "kind_free_text": "integration rules over exact rationals in TLA+, lattice enumerated by TLC, evaluated on the library's real step code"},
     {"name": "storage", "path": "spec/Storage.tla spec/Scen_Storage.tla vh/storedrv.py", "serves_properties": ["C15"],
      "kind_free_text": "TLA+ model of the time-series storage and npz off-loading; configuration product enumerated by TLC and run on the real code"},
+    {"name": "connectivity", "path": "spec/Connectivity.tla spec/Trace_Connectivity.tla spec/Scen_Connectivity.tla vh/conndrv.py vh/netbuild.py",
+     "serves_properties": ["C12"], "kind_free_text": "graph definitions in TLA+ evaluated by TLC on logged graphs of real Systems; ConnMan model-checked"},
     {"name": "lifecycle", "path": "spec/Lifecycle.tla spec/Trace_Lifecycle.tla spec/Scen_Lifecycle.tla vh/lifecycle.py vh/infeasible.py",
      "serves_properties": ["C17", "C14"],
      "kind_free_text": "TLA+ model of routine gating / success flags / exit code; TLC-enumerated operation sequences run on real Systems, "
@@ -40,6 +42,17 @@ CHECKS = {
              "trace is validated by TLC with the property formulas evaluated at every step.",
         note=TRUSTED + "Newton outcomes are abstracted to classes in the model; 1 model unit = 1e-5 s on replay; quick tier replays a "
                        "seeded sample of the TLC-enumerated space (thorough: up to 12000)."),
+    "C12": dict(
+        engine="connectivity", design_ref="DESIGN.md 4 (C12)",
+        technique="TLC model checking of ConnMan + TLC-enumerated graphs (all K3, K4 branch patterns) built as real Systems + "
+                  "TLC trace validation against graph-theoretic definitions evaluated in TLA+",
+        text="Connected components / isolated buses / slack classification are defined in TLA+ independently of the "
+             "implementation's sparse-matrix iteration; every graph on 3 and 4 buses (branch absent / in / out of service) x slack "
+             "placement x bus-off set is built as a real System and TLC evaluates the definitions on the logged graph against what "
+             "connectivity(), the power flow and ConnMan report.",
+        note=TRUSTED.replace("vh/tdsdrv.py: ranks of floats, booleans computed on floats", "vh/conndrv.py: bus positions, edge lists, device statuses")
+             + "Graphs with 5-6 buses are a seeded random sample; quick tier samples 260 of the 729 K4 patterns. Islands after "
+               "switching events during simulation are only covered through C06's stock-case traces."),
     "C14": dict(
         engine="tdsloop+lifecycle", design_ref="DESIGN.md 4 (C14)",
         technique="TLC model checking of segmented runs (RunResume) + TLC trace validation of split / snapshot-restored runs "
